@@ -82,6 +82,8 @@ type Engine struct {
 	deferCount  int
 	graphs   map[graphKey]*Graph
 	graphBusy map[graphKey]bool
+	active    []*Ctx // call strings of the loads being resolved (innermost last)
+	gatesAt   map[gatesAtKey][]*Alt
 	pathMemo map[pathKey][]*Alt
 	pathBusy map[pathKey]bool
 	Assume   map[string]bool // condition term string -> assumed truth value
@@ -146,9 +148,9 @@ func (e *Engine) Enter(ctx *Ctx, call ssa.CallInstruction, callee *ssa.Function)
 // aliasOf translates the name of an exported function's own parameter (as
 // used by context-free write places) into the argument bound to it on ctx's
 // call string, if that function is on the call string.
-func (e *Engine) aliasOf(base string, ctx *Ctx) string {
+func (e *Engine) aliasOf(base string, ctx *Ctx) (string, []string) {
 	if !strings.HasPrefix(base, "$") {
-		return base
+		return base, nil
 	}
 	for c := ctx; c != nil; c = c.Parent {
 		if c.Call == nil || c.Unknown {
@@ -161,12 +163,12 @@ func (e *Engine) aliasOf(base string, ctx *Ctx) string {
 		for i, p := range c.Fn.Params {
 			if base == fmt.Sprintf("%s%d:%s", prefix, i, p.Name()) && i < len(c.Call.Common().Args) {
 				t := e.Eval(c.Call.Common().Args[i], c.Parent)
-				b, _ := splitPlace(t)
-				return b.String()
+				b, path := splitPlace(t)
+				return b.String(), path
 			}
 		}
 	}
-	return base
+	return base, nil
 }
 
 // ctxFor finds the frame of fn on ctx's call string (or on one of the
@@ -180,6 +182,19 @@ func (e *Engine) ctxFor(fn *ssa.Function, ctx *Ctx, more ...*Ctx) *Ctx {
 		}
 	}
 	return e.UnknownCtx(fn)
+}
+
+// activeFrame returns the frame of fn on the call string of the load
+// currently being resolved, if any.
+func (e *Engine) activeFrame(fn *ssa.Function) *Ctx {
+	for _, start := range e.active {
+		for c := start; c != nil; c = c.Parent {
+			if c.Fn == fn && !c.Unknown {
+				return c
+			}
+		}
+	}
+	return nil
 }
 
 func shortFn(fn *ssa.Function) string { return load.FuncName(fn) }
@@ -324,7 +339,13 @@ func (e *Engine) eval(v ssa.Value, ctx *Ctx) *Term {
 				return xt
 			}
 		}
-		return e.mk(OpSlice, "", x, xt, lo, hi)
+		name := ""
+		if p, ok := x.X.Type().Underlying().(*types.Pointer); ok {
+			if a, ok := p.Elem().Underlying().(*types.Array); ok {
+				name = fmt.Sprintf("arr%d", a.Len()) // slicing an array of statically known length
+			}
+		}
+		return e.mk(OpSlice, name, x, xt, lo, hi)
 	case *ssa.Convert:
 		return e.mk(OpConv, load.TypeString(x.Type()), x, e.Eval(x.X, ctx))
 	case *ssa.ChangeType:
@@ -427,7 +448,13 @@ func (e *Engine) evalParam(x *ssa.Parameter, ctx *Ctx) *Term {
 		}
 		return own()
 	}
-	// unknown context: through all static callers, unless the function is API
+	// unknown context. If the function is on the call string of the load being
+	// resolved (e.active), its frame there is the relevant one.
+	if fr := e.activeFrame(fn); fr != nil {
+		e.deferCount++ // depends on the active call string: not memoisable
+		return e.Eval(x, fr)
+	}
+	// otherwise through all static callers, unless the function is API
 	callers := e.P.Callers[fn]
 	if len(callers) == 0 || isExported(fn) || usedAsValue(fn) {
 		return own()
@@ -438,6 +465,11 @@ func (e *Engine) evalParam(x *ssa.Parameter, ctx *Ctx) *Term {
 			continue // direct recursion
 		}
 		if idx >= len(c.Common().Args) {
+			continue
+		}
+		if fr := e.activeFrame(c.Parent()); fr != nil {
+			e.deferCount++
+			alts = append(alts, e.Eval(c.Common().Args[idx], fr))
 			continue
 		}
 		alts = append(alts, e.Eval(c.Common().Args[idx], e.UnknownCtx(c.Parent())))
